@@ -116,14 +116,23 @@ def isDecNan : PyVal → Bool
   | .dec (.nan _) => true
   | _ => false
 
+def isDec : PyVal → Bool
+  | .dec _ => true
+  | _ => false
+
+def isFloatNan : PyVal → Bool
+  | .float .nan => true
+  | _ => false
+
 /-! ### comparison operators -/
 
 /-- `a < b` -/
 def lt (a b : PyVal) : M Bool :=
   match num? a, num? b with
   | some x, some y =>
-    -- ordering comparisons involving a Decimal NaN raise InvalidOperation
-    if isDecNan a || isDecNan b then throw .invalidOperation else pure (NumV.lt x y)
+    -- ordering comparisons involving a Decimal NaN, or a Decimal and a float NaN, raise InvalidOperation
+    if isDecNan a || isDecNan b || ((isDec a || isDec b) && (isFloatNan a || isFloatNan b))
+    then throw .invalidOperation else pure (NumV.lt x y)
   | _, _ =>
     match a, b with
     | .str s, .str t => pure (decide (s < t))
@@ -412,7 +421,8 @@ def round (P : Prims) (v n : PyVal) : M PyVal :=
   | .bool b, some k => if k ≥ 0 then pure (.int (if b then 1 else 0)) else throw (.unmodelled "round")
   | .dec (.fin s c e), some k => decQuantize s c e k
   | .dec (.inf _), some _ => throw .invalidOperation
-  | .dec (.nan _), some _ => throw .invalidOperation
+  | .dec (.nan false), some _ => pure v          -- quiet NaN propagates through quantize
+  | .dec (.nan true), some _ => throw .invalidOperation
   | .float f, some k => pure (.float (P.floatRound f k))
   | _, _ => throw .typeError
 
